@@ -175,6 +175,9 @@ class Functor(pg_object.Object, utils.Functor):
     # NOTE(daiyip): Since Functor is usually late bound (until call time),
     # we pass `allow_partial=True` during functor construction.
     _ = kwargs.pop('allow_partial', None)
+    # NOTE: `sealed` is an option of the symbolic object, not an argument of
+    # the function: it must not be counted as a bound argument.
+    sealed = kwargs.pop('sealed', None)
 
     varargs = None
     signature = self.__signature__
@@ -224,6 +227,7 @@ class Functor(pg_object.Object, utils.Functor):
       default_args.add(signature.varargs.name)
 
     super().__init__(allow_partial=True,
+                     sealed=sealed,
                      root_path=root_path,
                      **bound_kwargs)
 
